@@ -168,6 +168,16 @@ func VerifHarness_C18_save() {
 		// vfTextNew, or the empty document (which the loader accepts as an empty definition)
 		vfAssert(err == nil && ok && got == text, "C18.save/accepted-save-stores-the-new-text")
 	}
+	// a later complete save (also after a killed one) stores exactly its text
+	if exists && vfChoice("secondSave", 2) == 1 {
+		second := []string{vfTextB, ""}[vfChoice("secondText", 2)]
+		err2 := cl.UpdateDAG(a, second)
+		got2, ok2 := vfSpec(ds, a)
+		if crashed {
+			vfClass("save-after-a-killed-save")
+		}
+		vfAssert(err2 == nil && ok2 && got2 == second, "C18.save/later-save-stores-exactly-its-text")
+	}
 	vfReach("end")
 }
 
